@@ -90,7 +90,7 @@ func encodeProcessorOptions(opt *ProcessorOptions) *internal.ProcessorOptions {
 
 	// Set expression, if set.
 	if opt.Expr != nil {
-		pb.Expr = opt.Expr.String()
+		pb.Expr = influxql.ShipString(opt.Expr)
 	}
 
 	// Set the location, if set.
@@ -118,12 +118,12 @@ func encodeProcessorOptions(opt *ProcessorOptions) *internal.ProcessorOptions {
 
 	// Set condition, if set.
 	if opt.Condition != nil {
-		pb.Condition = opt.Condition.String()
+		pb.Condition = influxql.ShipString(opt.Condition)
 	}
 
 	// Set value condition, if set.
 	if opt.ValueCondition != nil {
-		pb.ValueCondition = opt.ValueCondition.String()
+		pb.ValueCondition = influxql.ShipString(opt.ValueCondition)
 	}
 
 	// set the sort fields
@@ -441,7 +441,7 @@ func encodeUnnests(iUnnests influxql.Unnests) []*internal.Unnest {
 	unnests := make([]*internal.Unnest, len(iUnnests))
 	for i, u := range iUnnests {
 		unnest := &internal.Unnest{
-			Expr:    u.Expr.String(),
+			Expr:    influxql.ShipString(u.Expr),
 			Aliases: u.Aliases,
 		}
 		unnest.DstType = make([]int32, len(u.DstType))
@@ -457,9 +457,9 @@ func EncodeJoinCases(joins []*influxql.Join) []*internal.JoinCase {
 	dstJoins := make([]*internal.JoinCase, 0, len(joins))
 	for _, join := range joins {
 		dstJoin := &internal.JoinCase{
-			LSrc:      join.LSrc.String(),
-			RSrc:      join.RSrc.String(),
-			Condition: join.Condition.String(),
+			LSrc:      influxql.ShipString(join.LSrc),
+			RSrc:      influxql.ShipString(join.RSrc),
+			Condition: influxql.ShipString(join.Condition),
 			JoinType:  int32(join.JoinType),
 		}
 		dstJoins = append(dstJoins, dstJoin)
@@ -470,7 +470,7 @@ func EncodeJoinCases(joins []*influxql.Join) []*internal.JoinCase {
 func EncodeSource(sources []influxql.Source) []string {
 	dstSrcs := make([]string, 0, len(sources))
 	for _, src := range sources {
-		dstSrc := src.String()
+		dstSrc := influxql.ShipString(src)
 		dstSrcs = append(dstSrcs, dstSrc)
 	}
 	return dstSrcs
@@ -483,7 +483,7 @@ func EncodeQuerySchema(schema hybridqp.Catalog) *internal.QuerySchema {
 
 	pb := &internal.QuerySchema{
 		ColumnNames: schema.GetColumnNames(),
-		QueryFields: schema.GetQueryFields().String(),
+		QueryFields: influxql.ShipString(schema.GetQueryFields()),
 		Unnests:     encodeUnnests(schema.GetUnnests()),
 	}
 
